@@ -87,3 +87,14 @@ Theorem roundtrip_default_format_plain o v :
 Proof.
   intros Hf Hh Hu Hv Hs. apply roundtrip_auto. unfold wf_auto. rewrite Hv, Hs. rewrite orb_true_r. reflexivity.
 Qed.
+
+(* ------------------------------------------------------------------ the file is fed back and written again *)
+(* What the loader returns is what the next run starts from (a pin without a recorded location has no URL: the
+   loader builds no link for it, and the writer prints none), so the round trip composes over any pair of option sets. *)
+Theorem roundtrip_twice o1 o2 v :
+  wf_auto o1 v = true -> wf_auto o2 (erase o1 v) = true ->
+  exists v1, load (write o1 v) = Ok v1 /\ v1 = erase o1 v /\ load (write o2 v1) = Ok (erase o2 v1).
+Proof.
+  intros H1 H2. exists (erase o1 v). split; [apply roundtrip_auto; exact H1|]. split; [reflexivity|].
+  apply roundtrip_auto. exact H2.
+Qed.
